@@ -208,14 +208,14 @@ def run(tier):
     execs = 0
     outcomes = 0
     maxpts = 0
-    for (c, b), r in zip(cfgs, scheddfs.explore_many(tasks)):
+    for (c, b), r in zip(cfgs, (scheddfs.explore_many(tasks) if tier != "thorough" else scheddfs.explore_many_capped(tasks, 2, 1500))):
         execs += r["executions"]
         outcomes += len(r["outcomes"])
         maxpts = max(maxpts, r["max_points"])
         for (key, detail), choices in r["violations"]:
             rep.add(Violation(key, f"messages {c[0]} producers {c[1]} send-plan {c[2]} bound {b} schedule {choices}: {detail}",
                               {"cfg": [list(c[0]), c[1], list(c[2])], "choices": choices}))
-        rep.sample({"messages": c[0], "producers": c[1], "send_plan": c[2], "preemption_bound": b, "executions": r["executions"],
+        rep.sample({"messages": c[0], "producers": c[1], "send_plan": c[2], "preemption_bound": b, "bound_completed_without_cap": r.get("bound_completed", b), "capped": r.get("capped", False), "executions": r["executions"],
                     "distinct_outcomes": len(r["outcomes"]), "branching_points": r["max_points"]}, 60)
     rep.cov.update({"states": execs, "transitions": execs, "traces_validated_against_impl": execs, "schedules": execs, "configurations": len(cfgs),
                     "distinct_outcomes_total": outcomes, "max_branching_points": maxpts,
